@@ -189,10 +189,19 @@ def run_call(ck, ift, row, rng, workdir, tag):
         kw["transitions"] = lambda i: None
     else:
         kw["transitions"] = lambda i: (None if i == 0 else (lambda sl: sl.average()))
+    def bdigest(sl):
+        # value of key 'b' of the list's mean (exact for single-sample and residual lists)
+        try:
+            m = sl.mean if isinstance(sl, ift.ResidualSampleList) else sl.local_item(0)
+            return m["b"].asnumpy().tobytes().hex()
+        except Exception as e:  # noqa
+            return "err:" + type(e).__name__
     if row["inspect"] == "one_arg":
-        kw["inspect_callback"] = lambda sl: cb_log.append(("inspect1", type(sl).__name__, sl.n_samples))
+        kw["inspect_callback"] = lambda sl: cb_log.append(("inspect1", type(sl).__name__, sl.n_samples,
+                                                           None, bdigest(sl)))
     elif row["inspect"] == "two_arg":
-        kw["inspect_callback"] = lambda sl, i: cb_log.append(("inspect2", type(sl).__name__, sl.n_samples, i))
+        kw["inspect_callback"] = lambda sl, i: cb_log.append(("inspect2", type(sl).__name__, sl.n_samples, i,
+                                                              bdigest(sl)))
     if row["terminate"] == "stop_at_1":
         def term(i):
             cb_log.append(("terminate", i))
@@ -324,6 +333,14 @@ def judge(ck, ift, obs):
         if row["inspect"] == "two_arg" and [x[3] for x in insp] != its[:len(insp)]:
             ck.violation("inspect-callback-index", f"inspect callback indices {[x[3] for x in insp]} != {its}",
                          row=row)
+    if row["inspect"] != "none" and row["constants"] == "b" and row["transitions"] != "average" and insp:
+        ck.hit("constants_checks")
+        ds = [x[4] for x in insp]
+        if obs["init_pos"] is not None:
+            ds = [obs["init_pos"]["b"].asnumpy().tobytes().hex()] + ds
+        if len(set(ds)) != 1:
+            ck.violation("constant-key-changed", "constant key 'b' changed between iterations "
+                         "(observed through the inspect callback)", row=row)
     term = [x[1] for x in log if x[0] == "terminate"]
     if row["terminate"] != "none" and term != its:
         ck.violation("terminate-callback", f"terminate callback saw iterations {term}, expected {its}", row=row)
